@@ -8,9 +8,14 @@ short by less than 1/16 of the 54-bit unit (`inv_to_close`), the truncation by l
 namespace Qentem.StrToNum
 open Qentem.Round Qentem.Generated.StrToNum
 
+theorem cap_ge_maxFinite (c : Nat) (h : maxFiniteBits ≤ c) : maxFiniteBits ≤ cap c := by
+  unfold cap maxFiniteBits infBits at *
+  split <;> omega
+
 theorem powerOfPositiveTen_close_trunc_int (v x Vt : Nat) (hv18 : 10 ^ 18 ≤ v) (hv : v < 2 ^ 64) (hx : x ≤ 2 ^ 20)
     (ht1 : v * 10 ^ x ≤ Vt) (ht2 : Vt < (v + 1) * 10 ^ x) :
-    ∃ p, powerOfPositiveTen v x = some p ∧ ulpDist p (nearestMag Vt 1) ≤ 1 := by
+    ∃ p, powerOfPositiveTen v x = some p ∧ ulpDist p (nearestMag Vt 1) ≤ 1 ∧
+      ((2 ^ 53 - 1) * 2 ^ 971 ≤ Vt → maxFiniteBits ≤ p) := by
   have hn0 : 0 < v := Nat.lt_of_lt_of_le (Nat.pow_pos (by decide)) hv18
   obtain ⟨p27, hp27e, hcases⟩ := posScale_closed v x hv
   have hp27 : p27 = 5 ^ 27 := by
@@ -96,11 +101,11 @@ theorem powerOfPositiveTen_close_trunc_int (v x Vt : Nat) (hv18 : 10 ^ 18 ≤ v)
   have hVt2 : Vt < B + u := by
     have : Vt < v * T + T := by rw [Nat.add_mul, Nat.one_mul] at ht2; exact ht2
     omega
-  obtain ⟨r1, r2, _, _⟩ := raw_close b (x + 64 * j) Vt hb (by rw [hB]; omega)
+  obtain ⟨r1, r2, r3, _⟩ := raw_close b (x + 64 * j) Vt hb (by rw [hB]; omega)
     (fun h => absurd h (by omega)) (fun _ => by rw [hu, hB]; exact hVt2)
   have hVt0 : 0 < Vt := Nat.lt_of_lt_of_le (Nat.mul_pos hn0 (by rw [← h10]; exact Nat.pow_pos (by decide))) ht1
   rw [nearestMag_nat _ hVt0]
-  exact cap_close _ _ r2 r1
+  exact ⟨cap_close _ _ r2 r1, fun hov => cap_ge_maxFinite _ (Nat.le_trans (floorRaw_ge_maxFinite _ hov) r3)⟩
 
 /-- the big integer of the positive path for a mantissa `v ≥ 10^17`: more than 53 bits, never above `v·10^x`, short
 of it by less than 1/16 of the 54-bit unit `u = 2^(bit−53)·2^s` -/
@@ -197,7 +202,8 @@ theorem codeRawNeg_zero (b s : Nat) (hb : b ≠ 0) (hbit : 52 < Nat.log2 b) : co
 below the quarter ulp `u/2` the rounding lemma `raw_close_rat` needs; `16·(2^54+1) ≤ 7·10^17`) -/
 theorem powerOfPositiveTen_close_trunc_rat (v x N D : Nat) (hv17 : 10 ^ 17 ≤ v) (hv : v < 2 ^ 64) (hx : x ≤ 2 ^ 20)
     (hD : 0 < D) (ht1 : v * 10 ^ x * D ≤ N) (ht2 : N < (v + 1) * 10 ^ x * D) :
-    ∃ p, powerOfPositiveTen v x = some p ∧ ulpDist p (nearestMag N D) ≤ 1 := by
+    ∃ p, powerOfPositiveTen v x = some p ∧ ulpDist p (nearestMag N D) ≤ 1 ∧
+      ((2 ^ 53 - 1) * 2 ^ 971 * D ≤ N → maxFiniteBits ≤ p) := by
   obtain ⟨b, s, hps, hb, hb256, hs32, hbit, k1, k4⟩ := posScale_trunc_facts v x hv17 hv hx
   have hb0 : b ≠ 0 := by omega
   obtain ⟨hlo, hhi⟩ := log2_bounds b hb0
@@ -272,7 +278,22 @@ theorem powerOfPositiveTen_close_trunc_rat (v x N D : Nat) (hv17 : 10 ^ 17 ≤ v
   have hspec : nearestMag N D = cap (ratRaw N D 0 L) := by
     have := nearestMag_bunits N D 0 0 L hN0 hD (Nat.le_refl _) hL52 (by simpa using hL1) (by simpa using hL2)
     simpa using this
-  rw [hspec]
-  exact cap_close _ _ c2 c1
+  refine ⟨by rw [hspec]; exact cap_close _ _ c2 c1, ?_⟩
+  intro hov
+  have hBD : B * D ≤ N := by
+    have : B * D ≤ v * T * D := Nat.mul_le_mul_right _ k1
+    omega
+  have hVf1 : B ≤ N / D := (Nat.le_div_iff_mul_le hD).2 hBD
+  have hVf2 : N / D < B + 2 * G := by
+    rw [Nat.div_lt_iff_lt_mul hD]
+    have e : (B + 2 * G) * D = B * D + G * D + G * D := by ring
+    have : 0 < G * D := Nat.mul_pos hG0 hD
+    omega
+  obtain ⟨_, _, r3, _⟩ := raw_close b s (N / D) hb (by rw [hBd]; exact hVf1) (fun h => absurd h (by omega))
+    (fun _ => by rw [hG, hBd]; exact hVf2)
+  have hmax : (2 ^ 53 - 1) * 2 ^ 971 ≤ N / D := (Nat.le_div_iff_mul_le hD).2 hov
+  have hc : codeRawNeg B 0 = codeRaw b s := by rw [← hBd]; exact codeRawNeg_zero b s hb0 (by omega)
+  rw [hc]
+  exact cap_ge_maxFinite _ (Nat.le_trans (floorRaw_ge_maxFinite _ hmax) r3)
 
 end Qentem.StrToNum
